@@ -13,7 +13,7 @@ from typing import Any, List
 
 from semantiva.context_processors.context_processors import ContextProcessor
 from semantiva.context_processors.context_types import ContextType
-from semantiva.data_io import DataSink, DataSource, PayloadSource
+from semantiva.data_io import DataSink, DataSource, PayloadSink, PayloadSource
 from semantiva.data_processors.data_processors import DataOperation, DataProbe
 from semantiva.data_types import NoDataType
 from semantiva.examples.test_utils import FloatDataCollection, FloatDataType
@@ -187,6 +187,14 @@ class VAffine(_VFloatOp):
         return FloatDataType(a * data.data + b)
 
 
+class VPoly(_VFloatOp):
+    """p * data + q + r + s  (three required parameters and one default: a swept element with several un-swept ones)."""
+
+    def _process_logic(self, data, p: float, q: float, r: float, s: float = 0.0):
+        REC.add("VPoly", data, {"p": p, "q": q, "r": r, "s": s})
+        return FloatDataType(p * data.data + q + r + s)
+
+
 class VAddNote(_VFloatOp):
     """data + addend; also writes the declared context key ``note`` (= result)."""
 
@@ -277,6 +285,14 @@ class VCtxScale(ContextProcessor):
         self._notify_context_update("scaled", base * k)
 
 
+class VCtxMeta(ContextProcessor):
+    """No-op context processor carrying a free-form (arbitrarily nested) parameter ``vmeta``; creates no key, accepts any
+    data: a place where a configuration can hold structured parameter values without affecting the data flow."""
+
+    def _process_logic(self, vmeta=None):
+        REC.add("VCtxMeta", None, {"vmeta": vmeta})
+
+
 class VCtxBadWriter(ContextProcessor):
     """Fault component: writes a key it does not declare."""
 
@@ -341,6 +357,58 @@ class VNullSink(DataSink):
         return FloatDataType
 
 
+# IO components carrying a discouraged-but-legal extra type declaration (the catalogue only warns: SVA211 / SVA201).
+# Nodes built on them are valid configurations: the sink node still passes its input type through, the source node
+# still takes no data, and the generated adapter must agree with the node that wraps it.
+class VLedgerSink(DataSink):
+    """Sink that records; ALSO declares an output type different from its input type."""
+
+    @classmethod
+    def _send_data(cls, data: FloatDataType, tag: str = "t"):
+        REC.add("VLedgerSink", data, {"tag": tag})
+
+    @classmethod
+    def input_data_type(cls):
+        return FloatDataType
+
+    @classmethod
+    def output_data_type(cls):
+        return FloatDataCollection
+
+
+class VLedgerPayloadSink(PayloadSink):
+    """Payload flavour of VLedgerSink."""
+
+    @classmethod
+    def _send_payload(cls, payload: Payload):
+        REC.add("VLedgerPayloadSink", payload.data, {})
+
+    @classmethod
+    def input_data_type(cls):
+        return FloatDataType
+
+    @classmethod
+    def output_data_type(cls):
+        return FloatDataCollection
+
+
+class VReplaySrc(DataSource):
+    """Source (value, default 7.0) that ALSO declares an input type (left over from the operation it replaced)."""
+
+    @classmethod
+    def _get_data(cls, value: float = 7.0) -> FloatDataType:
+        REC.add("VReplaySrc", None, {"value": value})
+        return FloatDataType(float(value))
+
+    @classmethod
+    def input_data_type(cls):
+        return FloatDataType
+
+    @classmethod
+    def output_data_type(cls):
+        return FloatDataType
+
+
 # --------------------------------------------------------------------------- fault components
 class VBadWriter(_VFloatOp):
     """Fault component: operation that writes an undeclared context key."""
@@ -366,6 +434,56 @@ class VBoom(_VFloatOp):
                 raise exc
             raise VBoomError(f"boom fuse={fuse}")
         return FloatDataType(data.data)
+
+
+def _odd_exception(kind: str) -> BaseException:
+    """Exceptions of standard-library classes whose constructors / attributes are NOT 'one message string'."""
+    if kind == "unicode_decode":
+        try:
+            b"\xff\xfe".decode("utf-8")
+        except UnicodeDecodeError as exc:
+            return exc
+    if kind == "unicode_encode":
+        try:
+            "\u20ac".encode("ascii")
+        except UnicodeEncodeError as exc:
+            return exc
+    if kind == "exception_group":
+        return ExceptionGroup("two things went wrong", [ValueError("one"), KeyError("two")])
+    if kind == "os_error":
+        return FileNotFoundError(2, "No such file or directory", "/nonexistent/input.dat")
+    if kind == "key_error_tuple":
+        return KeyError(("a", 1))
+    if kind == "stop_iteration":
+        return StopIteration(3)
+    if kind == "empty_message":
+        return ValueError()
+    if kind == "two_arg_custom":
+        return VTwoArgError("stage-2", 17)
+    return ZeroDivisionError("float division by zero")
+
+
+class VTwoArgError(Exception):
+    """A user exception whose constructor needs two arguments."""
+
+    def __init__(self, stage: str, code: int):
+        super().__init__(stage, code)
+        self.stage, self.code = stage, code
+
+
+ODD_EXCEPTION_KINDS = ["unicode_decode", "unicode_encode", "exception_group", "os_error", "key_error_tuple",
+                       "stop_iteration", "empty_message", "two_arg_custom", "zero_division"]
+
+
+class VRaise(_VFloatOp):
+    """Fault component: raises an exception of the standard-library / user class named by ``exc``."""
+
+    def _process_logic(self, data, exc: str = "zero_division"):
+        REC.add("VRaise", data, {"exc": exc})
+        pre = PREBUILT.get("odd")
+        if pre is not None:
+            raise pre
+        raise _odd_exception(exc)
 
 
 class VInterrupt(_VFloatOp):
